@@ -114,7 +114,10 @@ def transform_case(sname, cfg, pname, train, seed, res=None):
     shape = s.shape(cfg)
     D = int(np.prod(shape))
     dom = s.moderate_domain(cfg)
-    x = torch.tensor(np.stack([base_row(D, dom, seed + 3 * k + 1) for k in range(3)]), dtype=torch.float64).reshape(3, *shape).requires_grad_(True)
+    rows = np.stack([base_row(D, dom, seed + 3 * k + 1) for k in range(3)])
+    if (dom[0] is None or dom[0] < 0) and (dom[1] is None or dom[1] > 0):
+        rows[1, 0] = 0.0  # an exact zero (padding, sparse features): formulas like log|x| or x/|x| have removable singularities there
+    x = torch.tensor(rows, dtype=torch.float64).reshape(3, *shape).requires_grad_(True)
     cs = s.ctx_shape(cfg)
     ctx = None if cs is None else torch.stack([pat_tensor(cs, 5 + k, 0.7) for k in range(3)]).requires_grad_(True)
     oshape = s.out_shape(cfg)
